@@ -1,11 +1,17 @@
 import DelbDriver.Util
 import DelbDriver.Wrap
+import DelbDriver.Whitespace
+import DelbDriver.XPath
 open Lean DelbDriver
 
 def dispatch (j : Json) : Except String Json := do
   let cmd ← str j "cmd"
   match cmd with
   | "wrap" => handleWrap j
+  | "reduce" => handleReduce j
+  | "parse" => handleParse j
+  | "tokenize" => handleTokenize j
+  | "reduce_content" => handleReduceContent j
   | _ => throw s!"unknown cmd {cmd}"
 
 partial def loop (h : IO.FS.Stream) (out : IO.FS.Stream) : IO Unit := do
